@@ -26,11 +26,65 @@ func (a *c05) wgCall(ci ssa.CallInstruction, name string) bool {
 	if len(args) == 0 {
 		return false
 	}
-	if _, ok := c05FieldAddr(args[0], a.fJobWaiter); ok {
+	return a.isJobCounter(args[0], 0)
+}
+
+// isJobCounter: v denotes Cron's job counter: its address (&c.jobWaiter), the
+// pointer held in the field, or a parameter / captured variable / local bound
+// to one of those at every call site.
+func (a *c05) isJobCounter(v ssa.Value, depth int) bool {
+	if depth > 6 {
+		return false
+	}
+	if _, ok := c05FieldAddr(v, a.fJobWaiter); ok {
 		return true
 	}
-	_, ok := c05LoadOf(args[0], a.fJobWaiter) // the counter held through a pointer field
-	return ok
+	if _, ok := c05LoadOf(v, a.fJobWaiter); ok {
+		return true
+	}
+	switch x := v.(type) {
+	case *ssa.Parameter:
+		acts := a.actualsOf(x)
+		if len(acts) == 0 {
+			return false
+		}
+		for _, av := range acts {
+			if !a.isJobCounter(av, depth+1) {
+				return false
+			}
+		}
+		return true
+	case *ssa.FreeVar:
+		return a.isJobCounter(resolveFreeVar(x), depth+1)
+	case *ssa.Phi:
+		for _, ed := range x.Edges {
+			if !a.isJobCounter(ed, depth+1) {
+				return false
+			}
+		}
+		return true
+	case *ssa.UnOp:
+		if x.Op == token.MUL {
+			addr := x.X
+			if fv, ok := addr.(*ssa.FreeVar); ok {
+				addr = resolveFreeVar(fv)
+			}
+			if addr == nil {
+				return false
+			}
+			vals := c05CapturedStores(addr, 0)
+			if len(vals) == 0 {
+				return false
+			}
+			for _, sv := range vals {
+				if !a.isJobCounter(sv, depth+1) {
+					return false
+				}
+			}
+			return true
+		}
+	}
+	return false
 }
 
 // checkWaiterReuse: sync.WaitGroup must not be waited on by a detached
@@ -316,7 +370,11 @@ func (a *c05) checkStopContext() {
 		case *ssa.UnOp:
 			if x.Op == token.MUL {
 				if cell, ok := x.X.(*ssa.Alloc); ok {
-					if vals := c05CellStores(cell); len(vals) > 0 {
+					vals := c05CellStores(cell)
+					if len(vals) == 0 {
+						vals = c05CapturedStores(cell, 0) // assigned inside a callback
+					}
+					if len(vals) > 0 {
 						for _, sv := range vals {
 							resolve(sv, depth+1)
 						}
